@@ -1819,6 +1819,9 @@ class Exec:
     MUTATORS = {'add', 'append', 'remove', 'discard', 'clear', 'update', 'extend', 'pop', 'sort', 'insert', 'difference_update',
                 'intersection_update', 'setdefault', 'popitem', 'reverse', '__setitem__', '__delitem__'}
 
+    ARGS_ONLY_READ = {'update', 'extend', 'add', 'discard', 'remove', 'difference_update', 'intersection_update', 'get', 'count', 'index',
+                      'startswith', 'endswith', 'join', 'split', 'format', 'issubset', 'issuperset', 'union', 'intersection', 'difference'}
+
     NON_MUTATING_BUILTINS = {'filter', 'map', 'len', 'sorted', 'list', 'set', 'tuple', 'dict', 'any', 'all', 'sum', 'min', 'max', 'isinstance',
                              'str', 'int', 'bool', 'enumerate', 'zip', 'range', 'print', 'repr', 'abs', 'round', 'getattr', 'hasattr'}
 
@@ -1834,6 +1837,8 @@ class Exec:
                     names.add(n.func.value.id)
                 if isinstance(n.func, ast.Name) and n.func.id in self.NON_MUTATING_BUILTINS:
                     continue
+                if isinstance(n.func, ast.Attribute) and n.func.attr in self.ARGS_ONLY_READ:
+                    continue        # s.update(t), s.add(x), l.extend(t) ...: the receiver changes, the argument is only read
                 for a in list(n.args) + [k.value for k in n.keywords]:
                     if isinstance(a, ast.Starred):
                         a = a.value
